@@ -60,7 +60,7 @@ class MDCPDPAdapter(RoutingAdapter):
         if tier == "thorough":
             v(8, 1, "one", "lateness"); v(10, 1, "one", "minmax", "open", "L1"); v(8, 2, "per_depot", "lateness", "close", "L1")
             v(6, 4, "per_depot", "minsum"); v(10, 3, "per_depot", "minmax", "open"); v(8, 4, "one", "minmax"); v(10, 5, "one", "lateness", "open")
-            v(20, 5, "one", "lateness"); v(20, 5, "per_depot", "minmax")
+            v(20, 5, "per_depot", "lateness")
         return V
 
     def variant_tag(self, variant):
@@ -160,7 +160,7 @@ class MDCPDPAdapter(RoutingAdapter):
         return items
 
     def choosers(self, tier):
-        return ["uniform", "uniform", "depot_first", "depot_last", "high"] if tier == "thorough" else \
+        return ["uniform", "depot_first", "depot_last", "high"] if tier == "thorough" else \
                ["uniform", "depot_first", "high"]
 
     # ---------------------------------------------------------------- Coq encoding
